@@ -545,6 +545,10 @@ class SymExec:
 
     def binop(self, op, a, b, ea=None, eb=None):
         if op == '+':
+            # p + (x - p)  ==  x   (re-basing an iterator / pointer by its offset)
+            for x, y in ((a, b), (b, a)):
+                if isinstance(y, tuple) and len(y) == 3 and y[0] == 'sub' and unver(y[2]) == unver(x):
+                    return y[1]
             return mk_comm('add', [a, b])
         if op == '*':
             return mk_comm('mul', [a, b])
@@ -648,6 +652,13 @@ class SymExec:
         if obj is not None or (k == 'CXXMemberCallExpr'):
             o = self.call_obj(e, obj, st, depth)
             vals = self.args_nf(sd, args, st, depth)
+            if ln.startswith('operator'):
+                # an operator of the analysed classes with a body is what its body says (before the generic readings below)
+                callee0 = tu.callee_fn(e)
+                if callee0 is not None and tu.cfg(callee0) is not None and self.own(callee0):
+                    r0 = self.inline(callee0, o, vals, st, depth)
+                    if r0 is not None:
+                        return r0
             if ln in ('operator==', 'operator!=') and len(vals) == 1:
                 r = mk_eq(o, vals[0])
                 return r if ln == 'operator==' else mk_not(r)
@@ -660,7 +671,7 @@ class SymExec:
             if ln == 'operator[]' and len(vals) == 1:
                 return self.elem(o, vals[0])
             if ln == 'operator+' and len(vals) == 1:
-                return mk_comm('add', [o, vals[0]])
+                return self.binop('+', o, vals[0])
             if ln == 'operator-' and len(vals) == 1:
                 return self.binop('-', o, vals[0])
             callee = tu.callee_fn(e)
